@@ -1703,6 +1703,8 @@ class PSBTOut:
                     )
         elif self.witness_script:
             if self.redeem_script:
+                if not script_pubkey.is_p2sh():
+                    raise ValueError("RedeemScript defined for non-p2sh ScriptPubKey")
                 h160 = script_pubkey.commands[1]
                 if self.redeem_script.hash160() != h160:
                     raise ValueError(
@@ -1710,6 +1712,10 @@ class PSBTOut:
                     )
                 s256 = self.redeem_script.commands[1]
             else:
+                if not script_pubkey.is_p2wsh():
+                    raise ValueError(
+                        "WitnessScript provided for non-p2wsh ScriptPubKey"
+                    )
                 s256 = script_pubkey.commands[1]
             if self.witness_script.sha256() != s256:
                 raise ValueError(
@@ -1724,6 +1730,13 @@ class PSBTOut:
                 except ValueError:
                     raise ValueError(f"pubkey is not in WitnessScript {self}")
         elif self.redeem_script:
+            # the ScriptPubKey has to commit to the RedeemScript
+            if not script_pubkey.is_p2sh():
+                raise ValueError("RedeemScript defined for non-p2sh ScriptPubKey")
+            if self.redeem_script.hash160() != script_pubkey.commands[1]:
+                raise ValueError(
+                    "RedeemScript hash160 and ScriptPubKey hash160 do not match"
+                )
             for sec in self.named_pubs.keys():
                 try:
                     # this will raise a ValueError if it's not in there
